@@ -196,7 +196,21 @@ func init() {
 			}
 			time.Sleep(2 * time.Millisecond)
 		}
+		// ... and to send the RECONCILE call that follows the store (it has usually been sent long ago)
+		late := time.Now().Add(300 * time.Millisecond)
+		for time.Now().Before(late) {
+			c18.mu.Lock()
+			n := c18.reconciles
+			c18.mu.Unlock()
+			if n > 0 {
+				break
+			}
+			time.Sleep(5 * time.Millisecond)
+		}
 		time.Sleep(20 * time.Millisecond)
+		c18.mu.Lock()
+		c18.mark = c18.reconciles
+		c18.mu.Unlock()
 		c18EmitFid(r)
 	}
 	ExtraSteps["c18_fid"] = func(r *Runner, st *Step, ctx context.Context) { c18EmitFid(r) }
